@@ -81,9 +81,8 @@ def run(cx):
                 continue
             stderr = a.get("stderr", "")
             f = known.get("cyclic-container-recursion")
-            if f and kind == "cyclic" and a.get("k") == "crash" and "stack exceeds" in stderr and is_cyclic_script(src):
-                if src.strip() == f["witness"]["src"].strip() or True:
-                    cx.report_known(f)
+            if f and kind == "cyclic" and a.get("k") == "crash" and "stack exceeds" in stderr and is_known_cyclic(src, f):
+                cx.report_known(f)
                 continue
             bad_total += 1
             sig = (a.get("k"), a.get("stage"), re.sub(r"0x[0-9a-f]+|\d+", "N", (a.get("msg") or stderr)[:80]))
@@ -122,6 +121,12 @@ def run(cx):
     cx.assumptions += ["explicit exit / exec / network builtins are denied in the evaluated configuration (the property exempts them)",
                        "an input that does not answer within the time limit is noted, not judged (quadratic parse time on megabyte inputs)",
                        "known finding cyclic-container-recursion is classified by its signature (self-containing container + recursive operation + stack exhaustion)"]
+
+
+def is_known_cyclic(src, f):
+    """The known finding names the operations that recurse without end on self-containing data; any other
+    operation that kills the process on such data is a new violation."""
+    return is_cyclic_script(src) and any(src.rstrip().endswith("\n" + o) for o in f["witness"].get("ops", []))
 
 
 def is_cyclic_script(src):
